@@ -10,4 +10,10 @@ def run(run, binary, drv):
         return
     os.environ["VCHECK_DEV"] = dev
     os.environ["VCHECK_RELEASE"] = rel
+    # a third child: release with toml_edit's `perf` feature (a performance switch must not touch the limit)
+    perf = drv.build("release", features=["perf"], target_dir=os.path.join(drv.HARNESS, "target-perf"))
+    if perf:
+        os.environ["VCHECK_PERF"] = perf
+    else:
+        run.inconclusive.append("the perf build of the child failed")
     drv.standard_phase(run, binary, phase="recipes")
